@@ -20,13 +20,19 @@ PROPS = {
     "C01": {
         "test": "TestC01", "variant": "elem",
         "quick": {"shards": 16, "timeout": 1500,
-                  "matrix": [{"cpus": c} for c in (16, 1, 3, 16, 2, 5, 16, 1, 3, 7, 16, 4, 16, 3, 1, 16)]},
-        "thorough": {"shards": 32, "timeout": 7200, "matrix": [{"cpus": c} for c in range(1, 17)]},
+                  "matrix": [{"cpus": c, "gomaxprocs": g} for (c, g) in
+                             ((16, None), (1, None), (3, None), (16, 1), (2, None), (5, None), (16, 2), (1, 4),
+                              (3, None), (7, None), (16, 4), (4, None), (16, None), (3, 16), (1, None), (16, 3))]},
+        "thorough": {"shards": 32, "timeout": 7200,
+                     "matrix": [{"cpus": c} for c in range(1, 17)] + [{"cpus": 16, "gomaxprocs": g} for g in (1, 2, 3, 4, 5, 7, 8, 12)]
+                               + [{"cpus": c, "gomaxprocs": 16} for c in (1, 2, 3, 5)] + [{"cpus": 16}] * 4},
         "rule": "opening sets: n from {1,2,3,4,5,7,W-1,W,W+1,2W-1,2W,2W+1,3W+2 (W=NumCPU), 1..12, 30..60, 61..300}; index "
-                "pattern in {all equal, distinct with stride, two clusters, extremes, gaps, uniform}; up to 6 distinct "
-                "polynomials of kind zero/const/onehot/sparse/dense/max(r-1)/ramp; commitment representation plain / "
+                "pattern in {all equal, distinct with stride, two clusters, extremes, gaps, uniform}; forced shapes: 256 / 512 openings at ONE index (+ others), 255+2, and opening counts at the "
+                "verifier-MSM window thresholds 49,129,321,769,1793 (4097 in thorough); up to 6 distinct "
+                "polynomials of kind zero/const/onehot/sparse/dense/max(r-1)/ramp/recipe (limb and window patterns), openings "
+                "right below a hot position; commitment representation plain / "
                 "rescaled / sign-flipped / both; shared commitment pointers; labels '', short, 900..2048 bytes; processes "
-                "pinned to 1..16 CPUs by taskset (runtime.NumCPU follows). Non-trivial = at least two distinct "
+                "pinned to 1..16 CPUs by taskset (runtime.NumCPU follows) and GOMAXPROCS set below / above the CPU count. Non-trivial = at least two distinct "
                 "evaluation indices; distinct by the full case.",
         "oracle": "round trip: CheckMultiProof(fresh transcript, same label) == (true, nil); equal next challenge of both "
                   "transcripts; commitments still the same group element (reference equality on raw coordinates)",
@@ -85,7 +91,7 @@ PROPS = {
         "quick": {"shards": 16, "timeout": 1500},
         "thorough": {"shards": 16, "timeout": 7200},
         "rule": "(1) enumeration: for chosen (basis position i, window k) every digit v in 1..2^w-1 (w=16 for i<5, else 8) x "
-                "carry-in {0,1} as the single-coefficient vector v*2^(wk) (+ (2^w-1)*2^(w(k-1))) of length i+1, scalar < r; both tiers "
+                "carry-in mode {none, 2^w-1 in window k-1, 2^w-1 in ALL windows below k} as the single-coefficient vector v*2^(wk) (+ the carry pattern) of length i+1, scalar < r; both tiers "
                 "enumerate all 5*16 + 251*32 (position, window) units (exhaustive sub-domain, ~14.6 M checks). Non-trivial (counted, "
                 "distinct by construction) = digit >= half range or a carry arrives. (2) rapid vectors: length "
                 "{0..8,16,17,64,127..129,200,255,256,uniform} x {sparse, dense, dense with recipe scalars}; scalar recipes "
